@@ -1,4 +1,4 @@
-// GENERATED on every run by vlib/extract.py from /repo -- do not edit
+// GENERATED on every run by vlib/extract.py from /tmp/seedcheck-20768 -- do not edit
 #![allow(unused_imports, unused_variables, unused_mut, dead_code, unused_parens, unused_braces, non_snake_case)]
 use vstd::prelude::*;
 use core::cmp::Ordering;
@@ -239,6 +239,40 @@ pub proof fn lemma_lower_ascii_fixed(s: Seq<char>)
     assert(lower_ascii_seq(s) =~= s);
 }
 
+// ---- idempotence of lower-casing (C10, C12) ----
+/// A-validated (exhaustive over all scalar values): lower-casing the lower-case mapping of a char changes nothing
+#[verifier::external_body]
+pub proof fn axiom_lower_idem_char(c: char)
+    ensures lower_seq(u_to_lower(c)) == u_to_lower(c)
+{ }
+
+pub proof fn lemma_lower_seq_concat(a: Seq<char>, b: Seq<char>)
+    ensures lower_seq(a + b) == lower_seq(a) + lower_seq(b)
+    decreases b.len()
+{
+    if b.len() == 0 {
+        assert(a + b =~= a);
+        assert(lower_seq(a) + lower_seq(b) =~= lower_seq(a));
+    } else {
+        assert((a + b).drop_last() =~= a + b.drop_last());
+        assert((a + b).last() == b.last());
+        lemma_lower_seq_concat(a, b.drop_last());
+        assert(lower_seq(a + b) =~= lower_seq(a) + lower_seq(b));
+    }
+}
+
+/// lower-casing is a projection: applying it twice is applying it once
+pub proof fn lemma_lower_seq_idem(s: Seq<char>)
+    ensures lower_seq(lower_seq(s)) == lower_seq(s)
+    decreases s.len()
+{
+    if s.len() > 0 {
+        lemma_lower_seq_idem(s.drop_last());
+        axiom_lower_idem_char(s.last());
+        lemma_lower_seq_concat(lower_seq(s.drop_last()), u_to_lower(s.last()));
+    }
+}
+
 // ---- unit T.PurlField  <= purl/src/parse.rs:112 ----
 #[derive(Debug, Clone, Copy)]
 pub enum PurlField {
@@ -414,6 +448,21 @@ pub proof fn lemma_lt_asym(a: Seq<char>, b: Seq<char>)
     lemma_lex_flip(a, b);
 }
 
+/// in a strictly ascending list, the value paired with key `k` is the one at `pos_of(k)`
+pub proof fn lemma_has_pair_pos(v: Seq<(QualifierKey, SmallString)>, k: Seq<char>)
+    requires keys_sorted(v)
+    ensures forall|val: Seq<char>| has_pair(v, k, val) ==> 0 <= pos_of(v, k) < v.len() && v[pos_of(v, k)].0.0@ == k && v[pos_of(v, k)].1@ == val
+{
+    assert forall|val: Seq<char>| has_pair(v, k, val) implies 0 <= pos_of(v, k) < v.len() && v[pos_of(v, k)].0.0@ == k && v[pos_of(v, k)].1@ == val by {
+        let i = choose|i: int| 0 <= i < v.len() && #[trigger] v[i].0.0@ == k && v[i].1@ == val;
+        assert forall|j: int| 0 <= j < i implies str_lt(#[trigger] v[j].0.0@, k) by { assert(str_lt(v[j].0.0@, v[i].0.0@)); }
+        assert forall|j: int| i <= j < v.len() implies !str_lt(#[trigger] v[j].0.0@, k) by {
+            if j == i { lemma_lt_irrefl(k); } else { assert(str_lt(v[i].0.0@, v[j].0.0@)); lemma_lt_asym(k, v[j].0.0@); }
+        }
+        lemma_pos_of(v, k, i);
+    }
+}
+
 // ---- unit theory.types  <= (contracts):0 ----
 // ---- R9: stub of std::borrow::Cow for B = str (two variants, same names) ----
 pub enum Cow<'a, B: ?Sized> { Borrowed(&'a B), Owned(String) }
@@ -461,6 +510,19 @@ pub open spec fn shape_rel(t0: Seq<char>, p0: PurlParts, t1: Seq<char>, p1: Purl
     && (!valid_type(t0) ==> r == Err::<(), ParseError>(ParseError::InvalidPackageType))
 }
 
+
+/// C10 / C13 (type string): validating and ASCII-lower-casing twice is doing it once
+pub proof fn lemma_shape_idem(t0: Seq<char>, p0: PurlParts, t1: Seq<char>, p1: PurlParts, t2: Seq<char>, p2: PurlParts, r2: Result<(), ParseError>)
+    requires shape_rel(t0, p0, t1, p1, Ok::<(), ParseError>(())), shape_rel(t1, p1, t2, p2, r2)
+    ensures r2 is Ok, t2 == t1, p2 == p1
+{
+    assert(valid_type(t0));
+    let l = lower_ascii_seq(t0);
+    assert(t1 == l);
+    assert forall|i: int| 0 <= i < l.len() implies type_char(#[trigger] l[i]) && !ascii_upper_c(l[i]) by { assert(type_char(t0[i])); }
+    assert(valid_type(l));
+    lemma_lower_ascii_fixed(l);
+}
 
 // ---- unit theory.pkgtype  <= (contracts):0 ----
 // ---- vocabulary for the package-type rules, written from C08's wording ----
@@ -636,11 +698,151 @@ fn finish(&mut self, parts: &mut PurlParts) -> (r: Result<(), Self::Error>)
         Ok(())
     }
 }
+// ---- property lemmas ----
+// ---- C10: the pypi rule is a projection (pypi_norm(pypi_norm(s)) == pypi_norm(s)) ----
+// A-validated per char (exhaustive over all scalar values):
+#[verifier::external_body]
+pub proof fn axiom_lower_nonempty(c: char)
+    ensures u_to_lower(c).len() > 0
+{ }
+#[verifier::external_body]
+pub proof fn axiom_lower_no_dash(c: char)
+    requires !dash(c)
+    ensures forall|i: int| 0 <= i < u_to_lower(c).len() ==> !dash(#[trigger] u_to_lower(c)[i])
+{ }
+
+/// forward formulation of the rule: `d` = "the previous input character was one of - _ ."
+pub open spec fn pn(d: bool, s: Seq<char>) -> Seq<char> decreases s.len() {
+    if s.len() == 0 { Seq::<char>::empty() }
+    else if dash(s[0]) { (if d { Seq::<char>::empty() } else { seq!['-'] }) + pn(true, s.subrange(1, s.len() as int)) }
+    else { u_to_lower(s[0]) + pn(false, s.subrange(1, s.len() as int)) }
+}
+pub open spec fn no_dash(s: Seq<char>) -> bool { forall|i: int| 0 <= i < s.len() ==> !dash(#[trigger] s[i]) }
+pub open spec fn end_state(d: bool, s: Seq<char>) -> bool { if s.len() == 0 { d } else { dash(s.last()) } }
+
+pub proof fn lemma_pn_snoc(d: bool, s: Seq<char>, c: char)
+    ensures pn(d, s.push(c)) == pn(d, s) + (if dash(c) { if end_state(d, s) { Seq::<char>::empty() } else { seq!['-'] } } else { u_to_lower(c) })
+    decreases s.len()
+{
+    let t = s.push(c);
+    if s.len() == 0 {
+        let e = t.subrange(1, t.len() as int);
+        assert(e.len() == 0);
+        assert(pn(true, e) =~= Seq::<char>::empty());
+        assert(pn(false, e) =~= Seq::<char>::empty());
+        assert(pn(d, s) =~= Seq::<char>::empty());
+        assert(t[0] == c);
+        assert(pn(d, t) =~= pn(d, s) + (if dash(c) { if d { Seq::<char>::empty() } else { seq!['-'] } } else { u_to_lower(c) }));
+    } else {
+        let s1 = s.subrange(1, s.len() as int);
+        assert(t.subrange(1, t.len() as int) =~= s1.push(c));
+        let d1 = dash(s[0]);
+        lemma_pn_snoc(d1, s1, c);
+        assert(end_state(d1, s1) == end_state(d, s)) by { if s1.len() > 0 { assert(s1.last() == s.last()); } }
+        assert(t[0] == s[0]);
+        assert(pn(d, t) =~= pn(d, s) + (if dash(c) { if end_state(d, s) { Seq::<char>::empty() } else { seq!['-'] } } else { u_to_lower(c) }));
+    }
+}
+
+/// the statement-level definition (look-behind) and the forward one agree
+pub proof fn lemma_pypi_norm_is_pn(s: Seq<char>)
+    ensures pypi_norm(s) == pn(false, s)
+    decreases s.len()
+{
+    if s.len() > 0 {
+        let init = s.drop_last();
+        lemma_pypi_norm_is_pn(init);
+        lemma_pn_snoc(false, init, s.last());
+        assert(init.push(s.last()) =~= s);
+        if init.len() > 0 { assert(init.last() == s[s.len() - 2]); }
+        if dash(s.last()) && !(s.len() >= 2 && dash(s[s.len() - 2])) {
+            assert(pypi_norm(init).push('-') =~= pypi_norm(init) + seq!['-']);
+        }
+        assert(pypi_norm(init) + Seq::<char>::empty() =~= pypi_norm(init));
+    }
+}
+
+pub proof fn lemma_pn_block(d: bool, l: Seq<char>, y: Seq<char>)
+    requires no_dash(l), l.len() > 0
+    ensures pn(d, l + y) == lower_seq(l) + pn(false, y)
+    decreases l.len()
+{
+    let t = l + y;
+    assert(t[0] == l[0]);
+    let l1 = l.subrange(1, l.len() as int);
+    assert(t.subrange(1, t.len() as int) =~= l1 + y);
+    assert(l =~= seq![l[0]] + l1);
+    lemma_lower_seq_concat(seq![l[0]], l1);
+    assert(lower_seq(seq![l[0]]) =~= u_to_lower(l[0])) by {
+        assert(seq![l[0]].drop_last() =~= Seq::<char>::empty());
+        assert(lower_seq(Seq::<char>::empty()) =~= Seq::<char>::empty());
+    }
+    if l1.len() == 0 {
+        assert(l1 + y =~= y);
+        assert(lower_seq(l1) =~= Seq::<char>::empty());
+        assert(pn(d, t) =~= lower_seq(l) + pn(false, y));
+    } else {
+        assert forall|i: int| 0 <= i < l1.len() implies !dash(#[trigger] l1[i]) by { assert(l1[i] == l[i + 1]); }
+        lemma_pn_block(false, l1, y);
+        assert(pn(d, t) =~= lower_seq(l) + pn(false, y));
+    }
+}
+
+pub proof fn lemma_pn_idem(d: bool, s: Seq<char>)
+    ensures pn(d, pn(d, s)) == pn(d, s)
+    decreases s.len()
+{
+    if s.len() > 0 {
+        let rest = s.subrange(1, s.len() as int);
+        if dash(s[0]) {
+            lemma_pn_idem(true, rest);
+            if !d {
+                let x = pn(true, rest);
+                let o = seq!['-'] + x;
+                assert(o[0] == '-');
+                assert(o.subrange(1, o.len() as int) =~= x);
+                assert(pn(false, o) =~= seq!['-'] + pn(true, x));
+            } else {
+                assert(Seq::<char>::empty() + pn(true, rest) =~= pn(true, rest));
+            }
+        } else {
+            lemma_pn_idem(false, rest);
+            let l = u_to_lower(s[0]);
+            axiom_lower_nonempty(s[0]);
+            axiom_lower_no_dash(s[0]);
+            axiom_lower_idem_char(s[0]);
+            lemma_pn_block(d, l, pn(false, rest));
+        }
+    }
+}
+
+/// C10: normalising a pypi name twice is normalising it once
+pub proof fn lemma_pypi_norm_idem(s: Seq<char>)
+    ensures pypi_norm(pypi_norm(s)) == pypi_norm(s)
+{
+    lemma_pypi_norm_is_pn(s);
+    lemma_pypi_norm_is_pn(pypi_norm(s));
+    lemma_pn_idem(false, s);
+}
+
+/// C10 (type rules): applying PackageType's hook to its own output succeeds and changes nothing observable
+pub proof fn lemma_pkg_finish_idem(t0: PackageType, p0: PurlParts, t1: PackageType, p1: PurlParts, t2: PackageType, p2: PurlParts, r2: Result<(), PackageError>)
+    requires pkg_finish_rel(t0, p0, t1, p1, Ok::<(), PackageError>(())), pkg_finish_rel(t1, p1, t2, p2, r2)
+    ensures r2 is Ok, t2 == t1, p2.name@ == p1.name@, p2.namespace == p1.namespace, p2.version == p1.version,
+        p2.qualifiers == p1.qualifiers, p2.subpath == p1.subpath
+{
+    match t0 {
+        PackageType::NuGet => { lemma_lower_seq_idem(p0.name@); },
+        PackageType::PyPI => { lemma_pypi_norm_idem(p0.name@); },
+        _ => {},
+    }
+}
+
 
 // ---- consistency canary: must be REJECTED; if it verifies the assumptions are contradictory ----
 pub proof fn verif_canary_must_fail()
 {
-    axiom_string_from(); broadcast use axiom_ascii_to_lower;
+    axiom_string_from(); broadcast use axiom_ascii_to_lower; axiom_lower_nonempty('a'); axiom_lower_no_dash('a'); axiom_lower_idem_char('a');
     assert(false);
 }
 } // verus!
